@@ -242,8 +242,12 @@ def job_wrapper_args(tier):
             out.append(rec(f"C08/args/direction/path{pi}/separation test called once", "error", detail=str(len(seps))))
         else:
             sd, st = seps[0]
-            goals = [lift(sd[d_, e_]) == lift(direction[d_, e_]) for d_ in range(2) for e_ in range(2)] + [lift(st) == tol.e]
-            out.append(prove(f"C08/args/direction/path{pi}/separation test sees the normalised directions", p.conds, z3.And(goals), T, witness_vars=wv, replay=rb))
+            # stated division-free, entry by entry: seen * |u| == u  (the same form as the obligation on the kernel's directions below)
+            for d_ in range(2):
+                nrm_ = sq(u[d_][0].e * u[d_][0].e + u[d_][1].e * u[d_][1].e)
+                for e_ in range(2):
+                    out.append(prove(f"C08/args/direction/path{pi}/separation test sees the normalised directions [{d_},{e_}]", p.conds, lift(sd[d_, e_]) * nrm_ == u[d_][e_].e, T, witness_vars=wv, replay=rb))
+            out.append(prove(f"C08/args/direction/path{pi}/separation test sees the caller's tolerance", p.conds, lift(st) == tol.e, T, witness_vars=wv, replay=rb))
         for d in range(2):
             nrm = sq(u[d][0].e * u[d][0].e + u[d][1].e * u[d][1].e)
             for e in range(2):
